@@ -56,6 +56,11 @@ type caseIn struct {
 	// liveconc: no PUBs interleaved by the consumers (with one P the pooled buffer a held
 	// delivery used is then the very next one handed out)
 	Quiet bool `json:"quiet,omitempty"`
+	// liveflush: which write of the consumer's pump carries the frames ("timed", "notready",
+	// "send"; "" = drawn from the seed) and the first contending command (1 + index into
+	// fcNames; 0 = drawn from the seed)
+	Flusher string `json:"flusher,omitempty"`
+	Cmd     int    `json:"cmd,omitempty"`
 }
 
 func unb64(s string) []byte {
@@ -545,7 +550,7 @@ var liveFailures = 0
 const maxLiveFailures = 2
 
 func run(in caseIn, name string) {
-	if liveFailures >= maxLiveFailures && (in.Kind == "http" || in.Kind == "httpedge" || in.Kind == "live" || in.Kind == "livebig" || in.Kind == "livetmo" || in.Kind == "liveconc" || in.Kind == "livegate") {
+	if liveFailures >= maxLiveFailures && (in.Kind == "http" || in.Kind == "httpedge" || in.Kind == "live" || in.Kind == "livebig" || in.Kind == "livetmo" || in.Kind == "liveconc" || in.Kind == "livegate" || in.Kind == "liveflush") {
 		skipped++
 		return
 	}
@@ -574,6 +579,12 @@ func run(in caseIn, name string) {
 		concCase(in, name)
 	case "livegate":
 		gateCase(in, name)
+	case "liveflush":
+		if os.Getenv("WIREDRIVE_CHILD") != "" {
+			flushCase(in, name)
+		} else {
+			flushCaseIsolated(in, name)
+		}
 	default:
 		lib.Fatalf("unknown case kind %q", in.Kind)
 	}
@@ -586,6 +597,7 @@ func main() {
 	nbig := flag.Int("livebig", 3, "number of large-body live path cases")
 	nconc := flag.Int("liveconc", 4, "number of concurrent-delivery cases (slow consumers holding a frame part-way)")
 	ngate := flag.Int("livegate", 4, "number of cases holding a queue write part-way (verif gate in front of a topic's / channel's backend)")
+	nflush := flag.Int("liveflush", 6, "number of cases holding every kind of write of a consumer connection part-way while the connection's own commands contend for its output buffer")
 	nedge := flag.Int("httpedge", 1, "HTTP boundary matrix: 0 = off, 1 = every cell of the small and middle daemons + /pub around 4 KiB, 2 = also every cell of the 4 KiB daemon")
 	ntmo := flag.Int("livetmo", 2, "number of live path cases whose first requeue is the in-flight timeout")
 	big := flag.Int("big", 10, "number of large-body pure cases allowed")
@@ -616,7 +628,11 @@ func main() {
 		lib.ReadReplay(*replay, &ins)
 		bigBudget = 1 << 30
 		for k, in := range ins {
-			run(in, fmt.Sprintf("replay-%d-%s", k, in.Kind))
+			name := fmt.Sprintf("replay-%d-%s", k, in.Kind)
+			if n := os.Getenv("WIREDRIVE_CHILD"); n != "" {
+				name = n
+			}
+			run(in, name)
 		}
 		return
 	}
@@ -628,15 +644,15 @@ func main() {
 	// the families are interleaved so that the judge's shards (cut in emission order) carry
 	// similar amounts of large terms
 	kinds := []string{"enc", "enc", "dec", "dec", "round", "round", "frame", "stream", "mpub", "mpub", "mpub"}
-	total := *n + *nhttp + *nlive + *nbig + *nconc + *ngate
-	pk, hk, lk, bk, ck, gk := 0, 0, 0, 0, 0, 0
+	total := *n + *nhttp + *nlive + *nbig + *nconc + *ngate + *nflush
+	pk, hk, lk, bk, ck, gk, fk := 0, 0, 0, 0, 0, 0, 0
 	for i := 0; i < total; i++ {
 		// largest remaining share first (a simple weighted round-robin)
 		type fam struct {
 			done, want int
 			name       string
 		}
-		fams := []fam{{pk, *n, "pure"}, {hk, *nhttp, "http"}, {lk, *nlive, "live"}, {bk, *nbig, "livebig"}, {ck, *nconc, "liveconc"}, {gk, *ngate, "livegate"}}
+		fams := []fam{{pk, *n, "pure"}, {hk, *nhttp, "http"}, {lk, *nlive, "live"}, {bk, *nbig, "livebig"}, {ck, *nconc, "liveconc"}, {gk, *ngate, "livegate"}, {fk, *nflush, "liveflush"}}
 		best, bestv := -1, 2.0
 		for j, f := range fams {
 			if f.done < f.want {
@@ -664,6 +680,13 @@ func main() {
 		case "livegate":
 			run(caseIn{Kind: "livegate", Seed: r.U64(), Procs: []int{1, 2, -1}[gk%3]}, fmt.Sprintf("livegate-%d", gk))
 			gk++
+		case "liveflush":
+			// writer x command: three consecutive cases hold the timed flush, the not-ready
+			// flush and Send; a case has four rounds with four consecutive commands, starting
+			// at the first or at the fifth command in turn: six cases meet every writer with
+			// every command
+			run(caseIn{Kind: "liveflush", Seed: r.U64(), Procs: []int{1, 2, -1}[(fk+fk/3)%3], Flusher: flushers[fk%3], Cmd: 1 + 4*((fk/3)%2)}, fmt.Sprintf("liveflush-%d", fk))
+			fk++
 		default:
 			run(caseIn{Kind: "livebig", Seed: r.U64()}, fmt.Sprintf("livebig-%d", bk))
 			bk++
@@ -676,6 +699,8 @@ func main() {
 	out.Stat("timeout_cases_dropped_inconclusive", inconclusive)
 	out.Stat("deliveries_held_part_way_while_others_were_served", concHeld)
 	out.Stat("queue_writes_held_while_others_were_served", gateHeld)
+	out.Stat("connection_writes_held_while_own_command_contended", flushHeld)
+	out.Stat("own_commands_seen_executed_while_write_held", flushExecuted)
 	out.Stat("feature_combinations_exercised", len(featSeen))
 	out.Stat("feature_combinations_total", featTotal)
 }
